@@ -50,8 +50,15 @@ impl PendingTxs {
     }
 
     pub fn push(&mut self, tx: TransactionView, cycles: Cycle) {
+        // Keep the peers which the transaction has already been announced to, when the same
+        // transaction is submitted again.
+        let announced_peers = self
+            .txs
+            .get(&tx.hash())
+            .map(|(_, _, peers)| peers.clone())
+            .unwrap_or_default();
         self.txs
-            .insert(tx.hash(), (tx.data(), cycles, HashSet::new()));
+            .insert(tx.hash(), (tx.data(), cycles, announced_peers));
         if self.txs.len() > self.limit {
             self.txs.pop_front();
         }
